@@ -47,6 +47,9 @@ CHECKS = {
  'C12': dict(cat='translation_validation', engine='x86sym', technique='assemble the returned listing with GNU as, decode listing bytes and emitted bytes (objdump), compare instruction by instruction modulo alignment padding; pairs whose decodings differ are executed symbolically from one fully symbolic machine state and the successor states compared by z3',
              text='Same instruction sequence (mnemonics, registers, memory operands, immediates, branch destinations as instruction indices) for every program of the family on sse/avx/mmx; a listing the assembler rejects is a violation.',
              note='64-bit x86 only (no cross assemblers for NEON/MIPS/PowerPC in the image); padding nops ignored on both sides.', ref='DESIGN.md#c12'),
+ 'C16': dict(cat='model_checking', engine='cbmc', technique='CBMC bounded model checking of enumerated lifecycle scripts through the real program/compiler/code/executor TUs with a stub back end; pointer checks (use-after-free, double free) and --memory-leak-check decide each script for all emitted sizes/bytes',
+             text='Every enumerated sequence of compile / take_code / reset / recompile / run / emulate / free releases each resource exactly once, taken code stays valid after orc_program_free, no allocation is left behind.',
+             note='operation names enumerated (quick 18 scripts x 2 configurations; thorough all sequences <=3); ghost code-chunk allocator; real x86 back ends outside.', ref='DESIGN.md#c16'),
 }
 
 NOT_APPLICABLE = {
